@@ -26,7 +26,8 @@ API_OPS = ["meta 1", "flags 1", "vc 1", "vd 1", "fv 1", "missing 1", "failed 1",
            "chunkdata 1 0", "chunkdata 1 1", "chunkdata 1 2", "chunkdata 1 9", "chunkcomp 1 0", "chunkcomp 1 1", "chunkcomp 1 3",
            "chunkdata 1 1 5", "chunkcomp 1 1 5", "chunkdata 1 2 0",
            "range 2 1 -1", "range 3 1 2", "range 4 1 0", "range_free 2", "copy 5 1", "copy 1 5", "match 5 1", "match 1 5", "close 1",
-           "cmpchunk 1 0 5 0", "cmpchunk 5 1 1 1", "cmpchunk 1 1 5 1", "cmpchunk 6 1 1 1", "cmpchunk 1 1 6 1", "copy 6 1", "match 1 6"]
+           "cmpchunk 1 0 5 0", "cmpchunk 5 1 1 1", "cmpchunk 1 1 5 1", "cmpchunk 6 1 1 1", "cmpchunk 1 1 6 1", "copy 6 1", "match 1 6",
+           "read_header 1", "read_lead 1", "validate_lead 1", "seek 1 0", "read_header 1", "chunkdata 1 1", "readall 1 1 4096"]
 
 
 def fixed_programs(nchunks_hint):
@@ -46,6 +47,9 @@ def fixed_programs(nchunks_hint):
                   "cmpchunk 1 1 5 1", "cmpchunk 5 1 1 1", "cmpchunk 1 1 6 1", "cmpchunk 6 1 1 1", "cmpchunk 1 0 6 0", "match 1 6", "match 6 1", "close 1"])
     # 6: data-length / first-chunk getters and reads after a failed validation with the error cleared
     progs.append(["vc 1", "clear_error 1", "meta 1", "chunkdata 1 1", "clear_error 1", "readall 1 1 512", "clear_error 1", "range 2 1 -1", "close 1"])
+    # 7: the header parsed a second time on the same context (zckdl's no-range fallback does exactly this), from the current position and
+    #    after rewinding, then everything that uses what the parser left behind
+    progs.append(["read_header 1", "meta 1", "seek 1 0", "read_lead 1", "read_header 1", "meta 1", "chunkdata 1 1", "vc 1", "readall 1 1 4096", "validate_lead 1", "close 1"])
     return progs
 
 
@@ -171,8 +175,8 @@ class C03(core.Check):
     flavours = ["asan", "fuzz", "plain"]
     rule = ("inputs: reference-writer boundary grid (every numeric field x {0,1,127,128,2^31-1,2^31,2^32,2^63,2^64-1, 10/11/16-byte, unterminated, missing}), "
             "headers cut at every byte with the declared size following the cut, length fields +-1/2 around their buffer end, flag-4 short indexes, "
-            "C13's header generator, raw + re-sealed structural mutations of valid files - all with a correct header checksum unless raw; each run through "
-            "6 fixed API programs (inspection, random access, validation+read, streaming, copy/match as source and as target, error-clear-continue) in "
+            "sealed zstd files with hostile dictionaries (zstd dictionary magic + garbage, empty, not a frame), C13's header generator, raw + re-sealed structural mutations of valid files - all with a correct header checksum unless raw; each run through "
+            "7 fixed API programs (inspection, random access, validation+read, streaming, copy/match as source and as target, error-clear-continue, header parsed twice) in "
             "init_read and init_adv_read modes, 2 random programs, and (sampled) all tool invocations; a sample of inputs again on the uninstrumented build under "
             "valgrind memcheck (invalid accesses counted, uninitialised-value messages only recorded); stage 2: libFuzzer (re-sealing target) with ASan+UBSan. "
             "non-trivial = input that passed the header checksum gate in at least one consumer; distinct = (input bytes, programs)")
@@ -199,6 +203,7 @@ class C03(core.Check):
         out += hostile.grid_cases(r, q)
         out += hostile.cut_cases(r, q)
         out += hostile.length_edge_cases(r, q)
+        out += hostile.dict_cases(r, q)
         # C13's header generator (valid + mutated headers), with some body bytes appended
         import c13
 
@@ -251,12 +256,13 @@ class C03(core.Check):
                 progs.append((r.choice(["std", "std", "adv"]), [r.choice(API_OPS) for _ in range(r.randrange(3, 13))]))
             tools = None
             subset = None
-            if (i % (8 if self.quick else 3)) == 0 or desc.startswith(("grid:chunk", "edge:", "c13:valid")):
+            if (i % (8 if self.quick else 3)) == 0 or desc.startswith(("grid:chunk", "edge:", "c13:valid", "dict:")):
                 tools = ctx["tools"]
             out.append({"desc": desc, "data": core.b64(data), "good": core.b64(self.good), "good2": core.b64(self.good2), "progs": progs, "zh": ctx["zh"], "tools": tools, "tool_subset": subset})
         # memcheck sample: half from mutants of valid files (they get past the gate and into the decompressor), half from anywhere
         rm = core.rng(self.seed, "C03", "memcheck")
         deep = [c for c in out if not c["desc"].startswith(("grid:", "cut:", "edge:", "suite:"))]
+        deep += [c for c in out if c["desc"].startswith("dict:")] * 3
         n = 24 if self.quick else 1500
         pick = rm.sample(deep, min(len(deep), n // 2)) + rm.sample(out, min(len(out), n - n // 2))
         for c in pick:
